@@ -40,14 +40,23 @@ type ent struct {
 	Mtime   int64  `json:"mtime_ns,omitempty"`
 }
 
+// edit: applied between the first and the second run of a case (the two-step history family)
+type edit struct {
+	Path    string `json:"path"`
+	Content string `json:"content,omitempty"`
+	Delete  bool   `json:"delete,omitempty"`
+}
+
 type tcase struct {
-	Root string `json:"root"`
-	Ents []ent  `json:"entries"`
-	Keep bool   `json:"keep_orphaned_files"`
-	Lazy bool   `json:"lazy"`
-	W    int    `json:"w"`
-	W2   int    `json:"w_second_run"`
-	Race bool   `json:"race_binary,omitempty"`
+	Root  string `json:"root"`
+	Ents  []ent  `json:"entries"`
+	Edits []edit `json:"edits_before_second_run,omitempty"`
+	Keep  bool   `json:"keep_orphaned_files"`
+	Lazy  bool   `json:"lazy"`
+	W     int    `json:"w"`
+	W2    int    `json:"w_second_run"`
+	Race  bool   `json:"race_binary,omitempty"`
+	Fam   string `json:"family,omitempty"`
 }
 
 var rootsOK = []string{"proj", "site", "app1", "my-app", "x.y", "vendors", "v_"}
@@ -108,6 +117,54 @@ func join(d, n string) string {
 		return n
 	}
 	return d + "/" + n
+}
+
+var templLong = "package p\n\ntempl Long(items []string) {\n\t<ul>\n" + strings.Repeat("\t\tfor _, it := range items {\n\t\t\t<li class=\"row\">{ it }</li>\n\t\t}\n", 12) + "\t</ul>\n}\n"
+var templShort = "package p\n\ntempl S() {\n}\n"
+
+// siblingContent: what an existing _templ.go next to the template p holds.
+//
+//	0 equal to the generation (falls back to 1 when the template cannot be generated)   1 short garbage
+//	2 much longer garbage   3 a previous generation of a longer template   4 a previous generation of a shorter template
+func siblingContent(kind int, p, src, tag string) string {
+	switch kind {
+	case 0:
+		if code, st := oracle(p, src); st == "ok" {
+			return code
+		}
+	case 2:
+		return "// stale, long " + tag + "\npackage p\n" + strings.Repeat("// a line of an older, much longer generated file\n", 200)
+	case 3:
+		code, _ := oracle(p, templLong)
+		return code
+	case 4:
+		code, _ := oracle(p, templShort)
+		return code
+	}
+	return "// stale " + tag + "\npackage p\n"
+}
+
+// genEdits: the second step of a two-step history - some templates are shortened, lengthened, broken or deleted.
+func genEdits(r *rng.R, ents []ent) []edit {
+	var eds []edit
+	for _, e := range ents {
+		if e.Dir || !strings.HasSuffix(e.Path, ".templ") || r.Intn(100) < 40 {
+			continue
+		}
+		switch r.Intn(6) {
+		case 0, 1:
+			eds = append(eds, edit{Path: e.Path, Content: templShort})
+		case 2:
+			eds = append(eds, edit{Path: e.Path, Content: templLong})
+		case 3:
+			eds = append(eds, edit{Path: e.Path, Content: fmt.Sprintf(rng.Pick(r, templOK), "edited")})
+		case 4:
+			eds = append(eds, edit{Path: e.Path, Content: fmt.Sprintf(rng.Pick(r, templParseFail), "edited")})
+		default:
+			eds = append(eds, edit{Path: e.Path, Delete: true})
+		}
+	}
+	return eds
 }
 
 func genTree(r *rng.R, base int64) (root string, ents []ent) {
@@ -182,12 +239,8 @@ func genTree(r *rng.R, base int64) (root string, ents []ent) {
 			}
 			if r.Intn(100) < 45 { // an existing sibling: up to date or stale, older / same age / newer
 				g := join(d, stem+"_templ.go")
-				content := "// stale " + tag + "\npackage p\n"
-				if code, st := oracle(p, src); st == "ok" && r.Intn(100) < 65 {
-					content = code
-				}
 				gm := m + int64(r.Intn(3)-1)*100e9
-				add(g, content, gm)
+				add(g, siblingContent(r.Intn(5), p, src, tag), gm)
 			}
 		case x < 70: // a _templ.go; an orphan unless the stem's template happens to exist
 			add(join(d, stem+"_templ.go"), "// generated once "+tag+"\npackage p\n", mt())
@@ -242,13 +295,13 @@ func (s snap) list() []ent {
 }
 
 type outcome struct {
-	before, after, after2 snap
-	exit, exit2           int
-	start, start2         int64
-	stderr                string
-	raceReport            string
-	walk                  []string
-	err                   error
+	before, after, mid, after2 snap // mid = after, with the case's edits applied
+	exit, exit2                int
+	start, start2              int64
+	stderr                     string
+	raceReport                 string
+	walk                       []string
+	err                        error
 }
 
 const watchPattern = `(.+\.go$)|(.+\.templ$)`
@@ -349,6 +402,24 @@ func execute(scratchBase string, idx int, bin string, tc tcase) (o outcome) {
 	if o.after, err = snapshot(root); err != nil {
 		o.err = err
 		return
+	}
+	o.mid = o.after
+	if len(tc.Edits) > 0 {
+		for _, ed := range tc.Edits {
+			p := filepath.Join(root, filepath.FromSlash(ed.Path))
+			if ed.Delete {
+				os.Remove(p)
+				continue
+			}
+			if os.WriteFile(p, []byte(ed.Content), 0o644) == nil {
+				t := time.Now()
+				os.Chtimes(p, t, t)
+			}
+		}
+		if o.mid, err = snapshot(root); err != nil {
+			o.err = err
+			return
+		}
 	}
 	o.start2 = time.Now().UnixNano()
 	o.exit2, se = runCLI(bin, root, tc, tc.W2)
@@ -548,17 +619,23 @@ func evalCases(c *core.Ctx, scratch string, bins [2]string, cases []tcase, par i
 		o := outs[i]
 		vs[i].o = o
 		if o.err != nil {
-			reqs = append(reqs, drv.Req{Fn: "skip", Args: [][]byte{[]byte(tc.Root)}}, drv.Req{Fn: "skip"}, drv.Req{Fn: "skip"}, drv.Req{Fn: "skip"})
+			reqs = append(reqs, drv.Req{Fn: "skip", Args: [][]byte{[]byte(tc.Root)}}, drv.Req{Fn: "skip"}, drv.Req{Fn: "skip"}, drv.Req{Fn: "skip"}, drv.Req{Fn: "skip"})
 			continue
 		}
 		before := o.before.list()
 		orc, st := oracleMap(before)
 		vs[i].stages = st
+		mid := o.mid.list()
+		orc2 := orc
+		if len(tc.Edits) > 0 {
+			orc2, _ = oracleMap(mid)
+		}
 		reqs = append(reqs,
 			drv.Req{Fn: "skip", Args: [][]byte{[]byte(tc.Root)}},
 			runReq(tc.Root, tc.Keep, tc.Lazy, o.start, before, orc),
 			checkReq(tc.Keep, o.exit != 0, before, o.after.list(), orc),
-			runReq(tc.Root, tc.Keep, tc.Lazy, o.start2, o.after.list(), orc))
+			runReq(tc.Root, tc.Keep, tc.Lazy, o.start2, mid, orc2),
+			checkReq(tc.Keep, o.exit2 != 0, mid, o.after2.list(), orc2))
 	}
 	res := c.Model(reqs)
 	for i, tc := range cases {
@@ -568,8 +645,8 @@ func evalCases(c *core.Ctx, scratch string, bins [2]string, cases []tcase, par i
 			v.tie = "harness could not build or read the scratch tree: " + o.err.Error()
 			continue
 		}
-		sk, r1, ck, r2 := res[4*i], res[4*i+1], res[4*i+2], res[4*i+3]
-		if len(sk) != 3 || len(ck) != 1 {
+		sk, r1, ck, r2, ck2 := res[5*i], res[5*i+1], res[5*i+2], res[5*i+3], res[5*i+4]
+		if len(sk) != 3 || len(ck) != 1 || len(ck2) != 1 {
 			v.tie = "extracted model gave no answer"
 			continue
 		}
@@ -601,52 +678,54 @@ func evalCases(c *core.Ctx, scratch string, bins [2]string, cases []tcase, par i
 		}
 		// (2) the specification, evaluated on the implementation's own behaviour
 		if v.prop == "" && m1.wf && string(ck[0]) != "1" {
-			v.prop = "spec_check is false on the command's before/after trees and exit status " + strconv.Itoa(o.exit) + explain(tc, o, orc(o))
+			v.prop = "spec_check is false on the command's before/after trees and exit status " + strconv.Itoa(o.exit) + explain(tc.Keep, o.before, o.after, o.exit)
 		}
-		if v.prop == "" && m1.wf {
+		if v.prop == "" && m1.wf && len(tc.Edits) == 0 {
 			if d := contentsDiffer(o.after, o.after2); d != "" {
 				v.prop = "second run: " + d
 			}
+		}
+		if v.prop == "" && m2.wf && string(ck2[0]) != "1" {
+			v.prop = "second run (after the edits, if any): spec_check is false on the command's before/after trees and exit status " + strconv.Itoa(o.exit2) + explain(tc.Keep, o.mid, o.after2, o.exit2)
 		}
 	}
 	return vs
 }
 
-func orc(o outcome) map[string]string { m, _ := oracleMap(o.before.list()); return m }
-
 // explain names the first path on which the property text fails (for the replay file; the verdict is spec_check's).
-func explain(tc tcase, o outcome, orc map[string]string) string {
+func explain(keep bool, before, after snap, exit int) string {
+	orc, _ := oracleMap(before.list())
 	var keys []string
-	for k := range o.before {
+	for k := range before {
 		keys = append(keys, k)
 	}
 	sort.Strings(keys)
 	for _, k := range keys {
-		e := o.before[k]
+		e := before[k]
 		if e.Dir || !inScope(k) {
 			continue
 		}
 		if strings.HasSuffix(k, ".templ") {
 			g := strings.TrimSuffix(k, ".templ") + "_templ.go"
 			code, ok := orc[k]
-			if ok && o.after[g].Content != code {
+			if ok && after[g].Content != code {
 				return fmt.Sprintf(" [%s: sibling %s is not the generation of that file alone]", k, g)
 			}
-			if !ok && o.exit == 0 {
+			if !ok && exit == 0 {
 				return fmt.Sprintf(" [%s cannot be generated but the command succeeded]", k)
 			}
 		}
 		if strings.HasSuffix(k, "_templ.go") {
 			src := strings.TrimSuffix(k, "_templ.go") + ".templ"
-			if _, has := o.before[src]; !has {
-				if _, still := o.after[k]; still != tc.Keep {
-					return fmt.Sprintf(" [orphan %s: present after the run = %v, keep flag = %v]", k, still, tc.Keep)
+			if _, has := before[src]; !has {
+				if _, still := after[k]; still != keep {
+					return fmt.Sprintf(" [orphan %s: present after the run = %v, keep flag = %v]", k, still, keep)
 				}
 			}
 		}
 	}
-	for k, a := range o.after {
-		b, ok := o.before[k]
+	for k, a := range after {
+		b, ok := before[k]
 		if strings.HasSuffix(k, "_templ.go") && inScope(k) {
 			continue
 		}
@@ -654,8 +733,8 @@ func explain(tc tcase, o outcome, orc map[string]string) string {
 			return fmt.Sprintf(" [%s was created or modified]", k)
 		}
 	}
-	for k := range o.before {
-		if _, ok := o.after[k]; !ok && !(strings.HasSuffix(k, "_templ.go") && inScope(k)) {
+	for k := range before {
+		if _, ok := after[k]; !ok && !(strings.HasSuffix(k, "_templ.go") && inScope(k)) {
 			return fmt.Sprintf(" [%s was removed]", k)
 		}
 	}
@@ -793,13 +872,13 @@ func Run(c *core.Ctx) {
 	var cases []tcase
 	for _, t := range fixedTrees(base) {
 		for f := 0; f < 4; f++ {
-			cases = append(cases, tcase{Root: t.Root, Ents: t.Ents, Keep: f&1 == 1, Lazy: f&2 == 2, W: 1 + c.Rng.Intn(16), W2: 1 + c.Rng.Intn(16)})
+			cases = append(cases, tcase{Fam: "fixed", Root: t.Root, Ents: t.Ents, Keep: f&1 == 1, Lazy: f&2 == 2, W: 1 + c.Rng.Intn(16), W2: 1 + c.Rng.Intn(16)})
 		}
 	}
 	nExh := 0
 	for _, t := range exhaustiveTrees(base, !c.Quick()) {
 		for f := 0; f < 4; f++ {
-			cases = append(cases, tcase{Root: t.Root, Ents: t.Ents, Keep: f&1 == 1, Lazy: f&2 == 2, W: 1 + c.Rng.Intn(16), W2: 1 + c.Rng.Intn(16)})
+			cases = append(cases, tcase{Fam: "exhaustive-small", Root: t.Root, Ents: t.Ents, Keep: f&1 == 1, Lazy: f&2 == 2, W: 1 + c.Rng.Intn(16), W2: 1 + c.Rng.Intn(16)})
 			nExh++
 		}
 	}
@@ -812,7 +891,24 @@ func Run(c *core.Ctx) {
 		root, ents := genTree(c.Rng, base)
 		ws := []int{1, 16, 2 + c.Rng.Intn(14), 1 + c.Rng.Intn(16)}
 		for f := 0; f < 4; f++ {
-			cases = append(cases, tcase{Root: root, Ents: ents, Keep: f&1 == 1, Lazy: f&2 == 2, W: ws[(f+i)%4], W2: 1 + c.Rng.Intn(16), Race: !c.Quick() && (i%4 == 0)})
+			cases = append(cases, tcase{Fam: "random", Root: root, Ents: ents, Keep: f&1 == 1, Lazy: f&2 == 2, W: ws[(f+i)%4], W2: 1 + c.Rng.Intn(16), Race: !c.Quick() && (i%4 == 0)})
+		}
+	}
+	// two-step histories: run, edit templates (shorter / longer / broken / deleted), run again
+	nHist := c.N(40, 500)
+	for i := 0; i < nHist; i++ {
+		root, ents := genTree(c.Rng, base)
+		eds := genEdits(c.Rng, ents)
+		if len(eds) == 0 {
+			continue
+		}
+		for f := 0; f < 4; f++ {
+			cases = append(cases, tcase{Fam: "history-random", Root: root, Ents: ents, Edits: eds, Keep: f&1 == 1, Lazy: f&2 == 2, W: 1 + c.Rng.Intn(16), W2: 1 + c.Rng.Intn(16), Race: !c.Quick() && (i%4 == 0)})
+		}
+	}
+	for _, t := range historyFixed(base) {
+		for f := 0; f < 4; f++ {
+			cases = append(cases, tcase{Fam: "history-fixed", Root: t.Root, Ents: t.Ents, Edits: t.Edits, Keep: f&1 == 1, Lazy: f&2 == 2, W: 1 + c.Rng.Intn(16), W2: 1 + c.Rng.Intn(16)})
 		}
 	}
 	var vs []verdict
@@ -825,6 +921,7 @@ func Run(c *core.Ctx) {
 	}
 
 	tieOK, propOK, raceOK := true, true, true
+	famCases, famProp, famTie := map[string]int{}, map[string]int{}, map[string]int{}
 	shrunkTie, shrunkProp := false, false
 	nWf, nSkippedRoot := 0, 0
 	for i, v := range vs {
@@ -846,6 +943,13 @@ func Run(c *core.Ctx) {
 		}
 		c.Count(key)
 		hist(c, tc, v)
+		famCases[tc.Fam]++
+		if v.prop != "" {
+			famProp[tc.Fam]++
+		}
+		if v.tie != "" {
+			famTie[tc.Fam]++
+		}
 		if v.wf {
 			nWf++
 		}
@@ -901,6 +1005,9 @@ func Run(c *core.Ctx) {
 		c.Oblige("side-condition", "no data race reported by the race-instrumented binary", raceOK, "")
 	}
 	c.Extra["cases"] = len(cases)
+	c.Extra["cases_by_family"] = famCases
+	c.Extra["property_failures_by_family"] = famProp
+	c.Extra["model_differences_by_family"] = famTie
 	c.Extra["well_formed_cases"] = nWf
 	c.Extra["skipped_root_cases"] = nSkippedRoot
 	for i := 0; i < len(cases) && i < 3; i++ {
@@ -1077,8 +1184,10 @@ func exhaustiveTrees(base int64, all bool) []fixed {
 			}
 		}
 		for si, src := range srcs {
-			for sib := 0; sib < 7; sib++ { // 0 absent; 1-3 stale older/same/newer; 4-6 up to date older/same/newer
-				if sib >= 4 && si != 1 {
+			// 0 absent; then older/same age/newer of: 1-3 short garbage; 4-6 up to date; 7-9 much longer garbage;
+			// 10-12 previous generation of a longer template; 13-15 previous generation of a shorter template
+			for sib := 0; sib < 16; sib++ {
+				if sib >= 4 && sib <= 6 && si != 1 {
 					continue
 				}
 				for orphan := 0; orphan < 2; orphan++ {
@@ -1088,10 +1197,7 @@ func exhaustiveTrees(base int64, all bool) []fixed {
 						ents = append(ents, ent{Path: tp, Content: src, Mtime: t(100)})
 					}
 					if sib > 0 {
-						content := "// stale\npackage p\n"
-						if sib >= 4 {
-							content, _ = oracle(tp, src)
-						}
+						content := siblingContent([]int{1, 0, 2, 3, 4}[(sib-1)/3], tp, src, "x")
 						ents = append(ents, ent{Path: join(loc, "a_templ.go"), Content: content, Mtime: t(100 + ((sib-1)%3-1)*50)})
 					}
 					if orphan == 1 {
@@ -1110,6 +1216,24 @@ func exhaustiveTrees(base int64, all bool) []fixed {
 type fixed struct {
 	Root string
 	Ents []ent
+}
+
+type hfixed struct {
+	Root  string
+	Ents  []ent
+	Edits []edit
+}
+
+// historyFixed: generate, then shorten / lengthen / break / delete the template, generate again.
+func historyFixed(base int64) []hfixed {
+	t := base + 50e9
+	var out []hfixed
+	for _, first := range []string{templLong, templShort} {
+		for _, ed := range []edit{{Path: "a.templ", Content: templShort}, {Path: "a.templ", Content: templLong}, {Path: "a.templ", Content: "package p\n\ntempl T( {\n"}, {Path: "a.templ", Delete: true}} {
+			out = append(out, hfixed{"proj", []ent{{Path: "a.templ", Content: first, Mtime: t}, {Path: "b.templ", Content: templShort, Mtime: t}}, []edit{ed}})
+		}
+	}
+	return out
 }
 
 func fixedTrees(base int64) []fixed {
